@@ -128,6 +128,12 @@ func Writers(p Program) map[string]map[int]bool {
 // single writer.
 func GuardF10F11(p Program) Guard {
 	w := Writers(p)
+	if p.Cfg.Flags["serial"] == 1 {
+		// serial stratum: every change reaches every replica before the next
+		// one is made - no peer edits anything concurrently, the trigger of
+		// F10/F11 cannot occur, and undo/redo of multi-writer text/tree runs
+		return func(d *document.Document, s Step) (Step, string) { return s, "" }
+	}
 	return func(d *document.Document, s Step) (Step, string) {
 		var top []document.HistoryOperation
 		switch s.Op {
@@ -460,6 +466,29 @@ func GuardF33(r *Runner) Guard {
 		// purged replica is a live, physically adjacent piece of the same
 		// insertion, re-creation and in-place revival coincide and the step
 		// is executed.
+		//
+		// An entry with several reviving operations (a multi-operation update)
+		// is outside this model: each operation is a re-creation of its own and
+		// the later ones are anchored on what the earlier ones produced (found
+		// by the serial stratum: "q"+"q" inserted by one update, deleted by a
+		// peer, undo, redo - the replica that had purged rebuilt the two pieces
+		// in the other order).
+		reviving := 0
+		for _, h := range undoTop(d, s) {
+			switch op := h.Op.(type) {
+			case *operations.Edit:
+				if len(op.RestoreSpans()) > 0 || len(op.RetombstoneSpans()) > 0 {
+					reviving++
+				}
+			case *operations.TreeEdit:
+				if len(op.RestoreSpans()) > 0 || len(op.RetombstoneSpans()) > 0 {
+					reviving++
+				}
+			}
+		}
+		if reviving > 1 {
+			return Step{}, "F33"
+		}
 		for _, h := range undoTop(d, s) {
 			switch op := h.Op.(type) {
 			case *operations.Edit:
